@@ -7,6 +7,8 @@ import PdshVerif.Pcp.Merge
 an existing destination tree in which, at ANY depth, the kind of an entry disagrees with the source's:
 
 * `DTree.good t`        -- a source tree that arrives (nothing is at its name yet),
+* `DTree.over`          -- a regular file of the source whose name is taken by a REGULAR FILE: it is replaced (exactly
+                           the bytes sent, whatever it held; with -p mode and time of the source),
 * `DTree.blockedFile`   -- a regular file of the source whose name is taken by a DIRECTORY on the target
                            (`open(O_WRONLY|O_CREAT)` fails: one error record after the `C` record, the client sends
                            neither data nor NUL; the directory and everything in it stay),
@@ -29,6 +31,7 @@ open PdshVerif.Gen
 /-- a source tree, by what the target makes of each of its nodes -/
 inductive DTree where
   | good (t : Tree)
+  | over (m t a : Nat) (d : Str)
   | blockedFile (m t a : Nat) (d : Str)
   | refusedDir (m t a : Nat) (kids : List (Str × Tree))
   | into (m t a : Nat) (kids : List (Str × DTree))
@@ -37,6 +40,7 @@ mutual
 /-- the source as the client sees it -/
 def DTree.src : DTree → Tree
   | .good t => t
+  | .over m t a d => .file m t a d
   | .blockedFile m t a d => .file m t a d
   | .refusedDir m t a kids => .dir m t a kids
   | .into m t a kids => .dir m t a (dsrcs kids)
@@ -49,6 +53,11 @@ mutual
 /-- the file system the receiver ends with -/
 def dFs (o : Opts) (ss : Bool) (fs : FS) (q : Path) (n : Str) : DTree → FS
   | .good t => recvTree o ss fs q n t
+  | .over m t _ d =>
+    match fs (q ++ [n]) with
+    | some (.file om _ _) =>
+      fs.set (q ++ [n]) (.file (overMode o om (m &&& RCP_MODEMASK)) (if o.preserve then some (sentTime ss t) else none) d)
+    | _ => fs
   | .blockedFile .. => fs
   | .refusedDir .. => fs
   | .into m t _ kids =>
@@ -68,6 +77,7 @@ mutual
 /-- the entries that cannot be written -/
 def dBad : DTree → Nat
   | .good _ => 0
+  | .over .. => 0
   | .blockedFile .. => 1
   | .refusedDir .. => 1
   | .into _ _ _ kids => dKidsBad kids
@@ -80,6 +90,9 @@ mutual
 /-- the domain -/
 def DOk (budget : Nat) (fs : FS) (q : Path) (n : Str) : DTree → Prop
   | .good t => GoodTree budget n t ∧ KidNamesOk t ∧ FreshBelow fs (q ++ [n])
+  | .over _ t a d =>
+    GoodName n ∧ n.length + 1 ≤ budget ∧ t < 2 ^ 63 ∧ a < 2 ^ 63 ∧ d.length < 2 ^ 63 ∧
+      ∃ om ot od, fs (q ++ [n]) = some (.file om ot od)
   | .blockedFile _ t a d =>
     GoodName n ∧ n.length + 1 ≤ budget ∧ t < 2 ^ 63 ∧ a < 2 ^ 63 ∧ d.length < 2 ^ 63 ∧
       ∃ dm dt, fs (q ++ [n]) = some (.dir dm dt)
@@ -101,6 +114,15 @@ theorem dFs_other (o : Opts) (ss : Bool) (fs : FS) (q : Path) (n : Str) (dt : DT
     (hx : ¬ (q ++ [n]) <+: x) : dFs o ss fs q n dt x = fs x := by
   cases dt with
   | good t => exact recvTree_other o ss fs q n t x hq hx
+  | over m t a d =>
+    have hne : x ≠ q ++ [n] := fun e => hx (e ▸ List.prefix_refl _)
+    unfold dFs
+    cases hf : fs (q ++ [n]) with
+    | none => rfl
+    | some nd =>
+      cases nd with
+      | dir dm dt => rfl
+      | file fm ft fd => exact set_other _ _ _ _ hne
   | blockedFile m t a d => rfl
   | refusedDir m t a kids => rfl
   | into m t a kids =>
@@ -136,6 +158,10 @@ theorem dOk_congr {fs fs' : FS} {budget : Nat} {q : Path} {n : Str} (dt : DTree)
   | good t =>
     simp only [DOk] at hok ⊢
     exact ⟨hok.1, hok.2.1, fun x hx => by rw [h x hx]; exact hok.2.2 x hx⟩
+  | over m t a d =>
+    simp only [DOk] at hok ⊢
+    obtain ⟨h1, h2, h3, h4, h5, om, ot, od, h6⟩ := hok
+    exact ⟨h1, h2, h3, h4, h5, om, ot, od, by rw [h _ (List.prefix_refl _)]; exact h6⟩
   | blockedFile m t a d =>
     simp only [DOk] at hok ⊢
     obtain ⟨h1, h2, h3, h4, h5, dm, dt, h6⟩ := hok
@@ -164,14 +190,15 @@ end
 /-! ## classifying a source tree against a file system  (executed by the check: `pdshmodel pcp deep`) -/
 
 mutual
-/-- what the target makes of each node of the source tree `t` sent under the name `n` into the directory `q`.
-(An existing regular FILE at the place of a regular file is replaced -- `copy_onto_existing` --, not a
-disagreement in kind; it is classified `good` and then falls outside `DOk`, which asks for a fresh name.) -/
+/-- what the target makes of each node of the source tree `t` sent under the name `n` into the directory `q`:
+TOTAL -- every pair of a source tree and a file system is classified, and `dOk_classify` shows that the classification
+is in the domain of `session_dtree` whenever the source is in the domain of C11 -/
 def classifyD (fs : FS) (q : Path) (n : Str) : Tree → DTree
   | .file m t a d =>
     match fs (q ++ [n]) with
     | some (.dir _ _) => .blockedFile m t a d
-    | _ => .good (.file m t a d)
+    | some (.file _ _ _) => .over m t a d
+    | none => .good (.file m t a d)
   | .dir m t a kids =>
     match fs (q ++ [n]) with
     | some (.file _ _ _) => .refusedDir m t a kids
@@ -201,6 +228,73 @@ theorem classifyKids_src (fs : FS) (q : Path) (kids : List (Str × Tree)) : dsrc
   | cons nk r =>
     obtain ⟨n, k⟩ := nk
     simp only [classifyKids, dsrcs, classifyD_src fs q n k, classifyKids_src fs q r]
+end
+
+/-! ## the classification is in the domain -/
+
+/-- what exists lies in directories that exist (every real file system; the jails of the check): below a path that
+does not exist nothing exists -/
+def FsClosed (fs : FS) : Prop := ∀ p x, fs p = none → p <+: x → fs x = none
+
+theorem classifyKids_names (fs : FS) (q : Path) (kids : List (Str × Tree)) (x : Str × DTree)
+    (hx : x ∈ classifyKids fs q kids) : ∃ k, (x.1, k) ∈ kids := by
+  induction kids with
+  | nil => simp [classifyKids] at hx
+  | cons nk r ih =>
+    obtain ⟨n, k⟩ := nk
+    simp only [classifyKids, List.mem_cons] at hx
+    rcases hx with rfl | hx
+    · exact ⟨k, List.mem_cons_self⟩
+    · obtain ⟨k', hk'⟩ := ih hx
+      exact ⟨k', List.mem_cons_of_mem _ hk'⟩
+
+mutual
+/-- **Every source tree in the domain of C11 is, against EVERY file system, in the domain of `session_dtree`.** -/
+theorem dOk_classify {fs : FS} (hcl : FsClosed fs) (budget : Nat) (q : Path) (n : Str) (t : Tree)
+    (hg : GoodTree budget n t) (hk : KidNamesOk t) : DOk budget fs q n (classifyD fs q n t) := by
+  cases t with
+  | file m t a d =>
+    have hg' := hg
+    simp only [GoodTree] at hg
+    obtain ⟨h1, h2, h3, h4, h5⟩ := hg
+    unfold classifyD
+    cases hf : fs (q ++ [n]) with
+    | none =>
+      simp only [DOk]
+      exact ⟨hg', hk, fun x hx => hcl _ x hf hx⟩
+    | some nd =>
+      cases nd with
+      | dir dm dt => simp only [DOk]; exact ⟨h1, h2, h3, h4, h5, dm, dt, hf⟩
+      | file fm ft fd => simp only [DOk]; exact ⟨h1, h2, h3, h4, h5, fm, ft, fd, hf⟩
+  | dir m t a kids =>
+    have hg' := hg
+    simp only [GoodTree] at hg
+    obtain ⟨h1, h2, h3, h4, h5⟩ := hg
+    simp only [KidNamesOk] at hk
+    unfold classifyD
+    cases hf : fs (q ++ [n]) with
+    | none =>
+      simp only [DOk]
+      exact ⟨hg', by simp only [KidNamesOk]; exact hk, fun x hx => hcl _ x hf hx⟩
+    | some nd =>
+      cases nd with
+      | file fm ft fd => simp only [DOk]; exact ⟨h1, h2, h3, h4, fm, ft, fd, hf⟩
+      | dir dm dt =>
+        simp only [DOk]
+        exact ⟨h1, h2, h3, h4, ⟨dm, dt, hf⟩, dKidsOk_classify hcl _ (q ++ [n]) kids h5 hk⟩
+theorem dKidsOk_classify {fs : FS} (hcl : FsClosed fs) (budget : Nat) (q : Path) (kids : List (Str × Tree))
+    (hg : GoodKids budget kids) (hk : KidListOk kids) : DKidsOk budget fs q (classifyKids fs q kids) := by
+  cases kids with
+  | nil => trivial
+  | cons nk r =>
+    obtain ⟨n, k⟩ := nk
+    simp only [GoodKids] at hg
+    simp only [KidListOk] at hk
+    simp only [classifyKids, DKidsOk]
+    refine ⟨hk.1, dOk_classify hcl budget q n k hg.1 hk.2.1, ?_, dKidsOk_classify hcl budget q r hg.2.2 hk.2.2⟩
+    intro x hx
+    obtain ⟨k', hk'⟩ := classifyKids_names fs q r x hx
+    exact hg.2.1 (x.1, k') hk'
 end
 
 end PdshVerif.Pcp
